@@ -1330,7 +1330,11 @@ impl ASN1Value {
                 }
                 Ok(())
             }
-            (ASN1Type::Enumerated(_), ASN1Value::ElsewhereDeclaredValue { identifier, .. }) => {
+            (ASN1Type::Enumerated(_), ASN1Value::ElsewhereDeclaredValue { identifier, .. })
+                if tlds
+                    .iter()
+                    .any(|(_, tld)| tld.has_enum_value(None, identifier)) =>
+            {
                 if let Some((_, tld)) = tlds
                     .iter()
                     .find(|(_, tld)| tld.has_enum_value(None, identifier))
